@@ -10,12 +10,25 @@
           2 the implementation accepted a statement the typing rules (Spec/Typing.v) reject
           3 the implementation rejected a statement the typing rules allow
           4 a rejected statement caused storage calls
-          5 a well-typed, accepted statement raised an operand-type error at execution
-          99 outside the model *)
+          5 a well-typed, accepted statement raised an operand-type error at execution; also
+            (task T1, evaluator part): a tree of an accepted statement that satisfies the premises
+            of accepted_statement_type_safe_partial (node_okv and defs_ok node_okv: the checker's
+            node tests, the covered language, documented parameter types, element kinds of
+            list-valued IN) answered a stored pair / a chunk with an operand-type error or a panic
+          99 outside the model
+
+   T1, evaluator part.  For the statements that carry [obs_evals]: the trees the twin's
+   build_check returns (WHERE = index 0, select field i = index i+1) are evaluated with the row
+   twin on every stored pair and with the batch twin on the consecutive chunks of the store, and
+   the outcome CLASS -- value / data-dependent failure by kind (division by zero, crossed
+   BETWEEN bounds, distance function, regexp) / operand-type error / panic -- is compared with
+   the class of what Expression.Execute / ExecuteBatch answered on the checked tree of
+   Parser.Parse (code 1 on a difference, 99 where the twin is outside its model). *)
 From Coq Require Import List String ZArith Bool Arith.
 Import ListNotations.
-From KV Require Import Base.Bytes Base.Num Base.Flt Model.Ast Model.Value Model.Eval
-                       Model.Checker Spec.Typing Proofs.CheckerProofs.
+From KV Require Import Base.Bytes Base.Num Base.Flt Model.Ast Model.Value Model.Eval Model.EvalVec
+                       Model.Checker Spec.Typing Proofs.CheckerProofs
+                       Proofs.TypeSafety2Proofs Proofs.TypeSafetyVecProofs.
 
 Fixpoint expr_eqb (a b : expr) {struct a} : bool :=
   let list_eqb :=
@@ -69,6 +82,15 @@ Definition stmt_eqb (a b : stmt) : bool :=
    the primitive floats *)
 Definition stmt_typed (s : stmt) : bool := CheckerProofs.stmt_typed prim_fops s.
 
+(* ---------------------------------------------------------------- T1: outcome classes *)
+Inductive t1obs := TVal | TErr (cls : nat) (pos : Z) | TPanic.
+
+Record evtree := EvTree {
+  et_idx : nat;                          (* 0: WHERE, i+1: select field i *)
+  et_rows : list t1obs;                  (* Execute on every stored pair, in store order *)
+  et_batches : list (nat * list t1obs)   (* (B, ExecuteBatch on the consecutive chunks of B pairs) *)
+}.
+
 Record case := Case {
   cstmt : stmt;               (* the unchecked statement *)
   cmode : nat;                (* 0 full comparison and verdict
@@ -78,8 +100,89 @@ Record case := Case {
   obs_pos : Z;                (* position carried by the error *)
   obs_calls : nat;            (* storage calls made by BuildPlan *)
   obs_tree : option stmt;     (* Parser.Parse's statement after the checker ran, when accepted *)
-  obs_typeerr : bool          (* some execution ended in an operand-type error *)
+  obs_typeerr : bool;         (* some execution ended in an operand-type error *)
+  obs_store : list (bytes * bytes);   (* T1: the pairs the trees were evaluated on *)
+  obs_evals : list evtree     (* T1: observed outcome classes, [] = not observed *)
 }.
+
+Definition err_eqb (a b : err) : bool :=
+  match a, b with
+  | EExec p, EExec q | ESyntax p, ESyntax q => Nat.eqb p q
+  | EOther, EOther => true
+  | _, _ => false
+  end.
+
+Definition kind_code (k : fkind) : nat :=
+  match k with FDivZero => 1 | FBetween => 2 | FDistance => 3 | FRegexp => 4 end.
+
+Fixpoint find_kind (x : err) (l : list (fkind * err)) : option fkind :=
+  match l with
+  | [] => None
+  | (k, y) :: l' => if err_eqb x y then Some k else find_kind x l'
+  end.
+
+(* 0 value, 1..4 data-dependent failure by kind, 10 operand-type error, 11 panic, 99 outside the model *)
+Definition err_class (e : expr) (x : err) : nat :=
+  match find_kind x (fsites e) with Some k => kind_code k | None => 10 end.
+
+Definition res_class {A} (e : expr) (r : res A) : nat :=
+  match r with Ok _ => 0 | Err x => err_class e x | Panic => 11 | OutOfModel => 99 end.
+
+Definition obs_err (cls : nat) (pos : Z) : err :=
+  match cls with 1 => EExec (Z.to_nat pos) | 2 => ESyntax (Z.to_nat pos) | _ => EOther end.
+
+Definition obs_class (e : expr) (o : t1obs) : nat :=
+  match o with TVal => 0 | TErr c p => err_class e (obs_err c p) | TPanic => 11 end.
+
+Definition re_oom14 (pat text : bytes) : res bool := OutOfModel.
+
+(* the premises of the type-safety theorems on one tree *)
+Definition t1_prem (e : expr) : bool := node_okv prim_fops e && defs_ok (node_okv prim_fops) e.
+
+Definition judge (prem : bool) (ct cg : nat) : nat :=
+  if prem && (Nat.eqb cg 10 || Nat.eqb cg 11) then 5
+  else if Nat.eqb ct 99 then 99
+  else if Nat.eqb ct cg then 0 else 1.
+
+Fixpoint worst14 (l : list nat) : nat :=
+  match l with
+  | [] => 0
+  | x :: l' => let w := worst14 l' in
+               if Nat.eqb x 0 then w else if Nat.eqb w 0 then x
+               else if Nat.eqb x 99 then w else if Nat.eqb w 99 then x else Nat.max x w
+  end.
+
+Fixpoint zip_with {A B C} (f : A -> B -> C) (l : list A) (m : list B) : list C :=
+  match l, m with
+  | a :: l', b :: m' => f a b :: zip_with f l' m'
+  | _, _ => []
+  end.
+
+Fixpoint chunks_of (fuel B : nat) (l : list (bytes * bytes)) : list (list (bytes * bytes)) :=
+  match fuel, l with
+  | S f, _ :: _ => firstn B l :: chunks_of f B (skipn B l)
+  | _, _ => []
+  end.
+
+Definition check_tree (store : list (bytes * bytes)) (e : expr) (t : evtree) : nat :=
+  let prem := t1_prem e in
+  let rows := zip_with (fun kv o => judge prem (res_class e (eval prim_fops re_oom14 (fst kv) (snd kv) e))
+                                               (obs_class e o)) store (et_rows t) in
+  let batches :=
+    map (fun bo : nat * list t1obs =>
+           let B := Nat.max 1 (fst bo) in
+           worst14 (zip_with (fun ch o => judge prem (res_class e (eval_batch prim_fops re_oom14 true e ch))
+                                                      (obs_class e o))
+                             (chunks_of (List.length store) B store) (snd bo)))
+        (et_batches t) in
+  worst14 (rows ++ batches).
+
+Definition trees_of (s2 : stmt) : list expr :=
+  match s2 with
+  | SSelect f2 w2 _ => w2 :: map snd f2
+  | SDelete w2 => [w2]
+  | _ => []
+  end.
 
 Definition twin_vs_impl (c : case) : nat :=
   match build_check prim_fops true (cstmt c) with
@@ -105,14 +208,33 @@ Definition spec_verdict (c : case) : nat :=
   else if accepted && typed && obs_typeerr c then 5
   else 0.
 
+Definition check_evals (c : case) : nat :=
+  match obs_evals c with
+  | [] => 0
+  | evs =>
+      match build_check prim_fops true (cstmt c) with
+      | Ok s2 =>
+          let trees := trees_of s2 in
+          worst14 (map (fun t => match nth_error trees (et_idx t) with
+                                 | Some e => check_tree (obs_store c) e t
+                                 | None => 1
+                                 end) evs)
+      | OutOfModel => 99
+      | _ => 1
+      end
+  end.
+
 Definition check_case (c : case) : nat :=
   match cmode c with
   | 2 => 0
-  | 1 => twin_vs_impl c
+  | 1 => worst14 [twin_vs_impl c; check_evals c]
   | _ =>
       match twin_vs_impl c with
       | 99 => 99
-      | t => match spec_verdict c with 0 => t | v => v end
+      | t => match spec_verdict c with
+             | 0 => worst14 [t; check_evals c]
+             | v => v
+             end
       end
   end.
 
